@@ -241,3 +241,37 @@ Lemma list_args_once_in_order f s c ids :
   eval (S (S (S f))) s c (EList (map tick_const ids))
   = ({| heap := heap s; log := log s ++ ids |}, Ok (VList (map (fun _ => VNull) ids))).
 Proof. rewrite eval_list_unfold, ticks_in_order. reflexivity. Qed.
+
+(* ---- per-element lambdas: once per element CONSUMED (C11) ---- *)
+Definition tick_body (id : Z) : expr := ETick id (EVar []).       (* the lambda  tick(id, $)  *)
+
+Lemma invoke_tick_body f s cap id x :
+  invoke (eval (S (S f))) s (tick_body id) cap [x] []
+  = ({| heap := heap s ++ [{| cparent := Some cap; cdata := [([49%Z], x)]; cfuncs := [] |}]; log := log s ++ [id] |}, Ok x).
+Proof.
+  unfold invoke, alloc, tick_body. rewrite eval_tick_unfold.
+  replace (eval (S f) _ (length (heap s)) (EVar [])) with
+    ({| heap := heap s ++ [{| cparent := Some cap; cdata := number_from 1 [x] ++ []; cfuncs := [] |}]; log := log s |},
+     @Ok val (lookup (heap s ++ [{| cparent := Some cap; cdata := number_from 1 [x] ++ []; cfuncs := [] |}]) (length (heap s)) []))
+    by reflexivity.
+  pose proof (invoke_binds_dollar (heap s) cap x [] [] eq_refl) as [Hd _]. cbn zeta in Hd. rewrite Hd.
+  reflexivity.
+Qed.
+
+(* draining  src.select(tick(id, $)) : the log grows by exactly one id per element, the values are the elements *)
+Lemma force_select_ticks f cap id : forall src s,
+  exists h', force (eval (S (S f))) s src [LMap (tick_body id) cap]
+             = ({| heap := heap s ++ h'; log := log s ++ repeat id (length src) |}, Ok src).
+Proof.
+  induction src as [|x src IH]; intros s.
+  - exists []. cbn. rewrite !app_nil_r. destruct s; reflexivity.
+  - cbn [force through]. rewrite invoke_tick_body. cbn [through].
+    match goal with |- context [force _ ?s1 src _] => destruct (IH s1) as [h' E] end.
+    rewrite E. cbn [heap log length repeat]. eexists. rewrite <- !app_assoc. reflexivity.
+Qed.
+
+(* first() on  src.select(tick(id, $)) : exactly ONE application, whatever the length of the source *)
+Lemma force_first_select_ticks f cap id x src s :
+  exists h', force_first (eval (S (S f))) s (x :: src) [LMap (tick_body id) cap]
+             = ({| heap := heap s ++ h'; log := log s ++ [id] |}, Ok (Some x)).
+Proof. cbn [force_first through]. rewrite invoke_tick_body. cbn [through]. eexists. reflexivity. Qed.
